@@ -33,8 +33,9 @@ ASSUMPTIONS = [
     'path forks over the feasible lengths, after which the run is numpy\'s '
     'own code on the real prefix; the last word of the cut file is an '
     'arbitrary 32-bit pattern when it is payload (checks/metmap.py)',
-    'lateral_boundary, landuse, wind, cloud_rain and bpch readers are not '
-    'encoded',
+    'wind and cloud_rain readers: same scheme on a real scratch prefix '
+    'file (they open the path themselves), with a 4 s termination limit; '
+    'lateral_boundary, landuse and bpch readers are not encoded',
 ]
 
 MANIFEST = {
